@@ -139,7 +139,7 @@ def run_shard(spec, ctx, acc):
             for on in (True, False):
                 try:
                     cn_ = layout.cap_instance(t.defn, t.mode, t.clsid, forced=catalog.forced_for(t) or {}, flags_on=on,
-                                              salt=bf, max_payload=6000 if ctx["tier"] == "quick" else 60000)
+                                              salt=bf, max_payload=6000 if ctx["tier"] == "quick" else 20000)
                 except Exception:  # noqa - the generator's limits are not the library's
                     cn_ = None
                 if cn_ is not None:
